@@ -44,3 +44,8 @@ MANIFEST_ENTRY = {
             "inverse are swept over an affine catalogue (diagonal, coupled, triangular, all permutations, rotations, block, chain), identity and WCS coordinates x a view catalogue.",
     "note": "Level is exploration: the end-to-end statement depends on numpy code (matmul, meshgrid, indexing) that is only swept.",
 }
+
+CONFIG_NOTE = {k: v + ("; _connected_axes for every matrix size n_world x n_pixel up to %s, every requested axis, started from the pixel axis, the world axis or both, all entries symbolic; "
+                       "dependent_axes for the same sizes and axes plus legacy coordinates; CoordinateComponentLink.__init__ for ndim 1-3 x index x every non-empty needed subset x direction given / defaulted; "
+                       "_set_up_coordinate_component_links for 0-4 axes with and without a coordinate object" % ('4x4' if k == 'quick' else '6x6')) for k, v in CONFIG_NOTE.items()}
+CONFIG_NOTE['thorough'] = CONFIG_NOTE['thorough'].replace('same;', 'as quick;', 1)
